@@ -10,7 +10,7 @@ from symx.sym import Ctx, use_ctx, sym, symarray, SymReal, SymComplex
 from symx.jet import Jet
 from symx.npproxy import patched
 from symx.fd import UninterpretedFD
-from symx.harness import Ob, FuncTrace, JetRun, source_digest
+from symx.harness import Ob, FuncTrace, JetRun, source_digest, watch, grid_fd, eval_terms
 from . import gr
 from .common import process_jet, vacuity, witness_sat, load_calib, save_calib
 
@@ -366,7 +366,7 @@ def fluid_tetrad_blocks(tier):
         for i, bv in enumerate([F(1, 3), F(-1, 2), F(1, 5)]):
             be[i, 0, 0, 0] = SymReal(tm.const(bv))
         pre = [tm.lt(tm.ZERO, al[0, 0, 0].t), tm.lt(tm.const(-1), p.t), tm.lt(p.t, tm.ONE)]
-        rel = AurelCore(UninterpretedFD(), verbose=False, tetrad='fluid')
+        rel = watch(AurelCore(UninterpretedFD(), verbose=False, tetrad='fluid'))
         rel.data.update(alpha=al, betaup3=be, gammadown3=ga, w_lorentz=gr.grid(W), velx=gr.grid(v[0]), vely=gr.grid(v[1]),
                         velz=gr.grid(v[2]))
         rel.freeze_data()
@@ -382,6 +382,41 @@ def fluid_tetrad_blocks(tier):
                     ob = Ob(f'fluid tetrad <e{a},e{b}>', ip, (-1 if a == 0 else 1) if a == b else 0, pre2,
                             group='fluid-adapted tetrad orthonormal for g (slice, moving fluid)')
                     (obs if (a == 0 or (a, b) == (1, 1)) else hunt).append(ob)
+            # the helpers hand out (combinations of) cached arrays - e0 is the cached uup4: after tetrad_base() and
+            # null_vector_base() every cached entry must still hold what was stored (no in-place modification)
+            rel.null_vector_base()
+            rel.tetrad_base()
+            class _FloatRun:
+                """float twin of this instance for replays (constant fields at the model values)"""
+                resolutions = ((5, 0.1),)
+
+                @staticmethod
+                def float_rel(model, N=5, h=0.1):
+                    fdn = grid_fd(N, h, 2)
+                    r = AurelCore(fdn, verbose=False, tetrad='fluid')
+
+                    def fl(a):
+                        out = np.zeros(a.shape[:-3] + fdn.x.shape)
+                        for ix in np.ndindex(*a.shape[:-3]):
+                            e_ = a[ix + (0, 0, 0)]
+                            out[ix] = float(eval_terms([e_.t], model)[0]) if isinstance(e_, SymReal) else float(e_)
+                        return out
+                    r.data.update(alpha=fl(al), betaup3=fl(be), gammadown3=fl(ga), w_lorentz=fl(gr.grid(W)), velx=fl(gr.grid(v[0])),
+                                  vely=fl(gr.grid(v[1])), velz=fl(gr.grid(v[2])))
+                    r.freeze_data()
+                    return r
+
+            def _after_helpers(r, key_, ix):
+                r[key_]
+                r.null_vector_base()
+                r.tetrad_base()
+                return r[key_][ix]
+            for key_, idx_, old_, new_ in rel.data.changed():
+                obs.append(Ob(f'cached {key_}{list(idx_[:-3])} unchanged by tetrad_base()/null_vector_base()', new_, old_, pre2,
+                              get=lambda r, key_=key_, ix=tuple(idx_[:-3]): _after_helpers(r, key_, ix),
+                              group='helpers do not modify cached entries (fluid tetrad)', meta=dict(run=_FloatRun, fresh_rel=True)))
+            obs.append(Ob('cached entries compared after tetrad_base()/null_vector_base()', tm.const(len(rel.data._snap)), tm.const(len(rel.data._snap)),
+                          pre2, group='helpers do not modify cached entries (fluid tetrad)'))
 
         def sampler(rng):
             return {'p': F(rng.choice([-5, -3, -1, 1, 2, 4, 6]), 8), 'al': F(rng.randint(4, 16), 8)}
